@@ -271,24 +271,34 @@ def r5(ctx):
     load = call_nodes(g, lambda c: isinstance(c.func, ast.Name) and c.func.id in f.params and c.func.id.endswith("load_fn"))
     ctx.require(load, "_get_impl does not call the db_load_fn parameter")
     want = {("populate_existing", False), ("mapper.always_refresh", False), ("for_update_arg is None", True)}
-    from ..astutil import test_atoms
+    binds = bool_binds(f.node)
     other = []
-    inner_ok = False
+    found = set()
     for t, pol in g.edge_guards(look[0]):
-        atoms = set(test_atoms(t, pol))
-        if atoms == want:
-            inner_ok = True
+        atoms = set(test_atoms(expand(t, binds), pol))  # a guard named as a boolean local is the condition it was bound from
+        if atoms <= want:
+            found |= atoms  # the documented condition, possibly split over nested ifs / early exits
             continue
         # any other dominating test must be input validation: its opposite outcome never reaches the load
         tn = [n.id for n in g.nodes if n.kind == "test" and n.stmt.test is t]
         opp = [b for n in tn for b, lab in g.succ[n] if lab == ("false" if pol else "true")]
         if set(load) & g.reachable(opp):
             other.append(unparse(t))
+    inner_ok = found == want
     ctx.check(inner_ok and not other, f"{f.key}:lookup-skipped-only-for-documented-reasons",
               f"the identity map is bypassed for other reasons than populate_existing / always_refresh / with_for_update (extra conditions: {other}; documented test found: {inner_ok})",
               "identity lookup unless populate_existing / always_refresh / with_for_update", f.loc)
-    tests = [t.id for t in g.nodes if t.kind == "test" and unparse(t.stmt.test) == f"{loc_name} is not None"]
-    hit_leaks = any(set(load) & g.reachable([b for b, lab in g.succ[t] if lab == "true"]) for t in tests)
+    # tests that decide hit / miss: their (resolved) condition is exactly `<lookup result> is None` in one polarity
+    tests, hit_starts = [], []
+    for t in g.nodes:
+        if t.kind != "test":
+            continue
+        at = test_atoms(expand(t.stmt.test, binds), True)
+        if len(at) == 1 and at[0][0] == f"{loc_name} is None":
+            tests.append(t.id)
+            hit_lab = "false" if at[0][1] else "true"
+            hit_starts += [b for b, lab in g.succ[t.id] if lab == hit_lab]
+    hit_leaks = bool(set(load) & g.reachable(hit_starts)) if hit_starts else False
     w = g.must_pass(look, load, tests, edge_ok=no_exc)
     ctx.check(bool(tests) and not hit_leaks and w is None, f"{f.key}:hit-returns-without-database",
               "an identity-map hit can still reach the database load", "hit -> return instance; load only on miss", f.loc, w)
@@ -850,9 +860,12 @@ def _attach_evidence(ctx, g, fn, N, var: str) -> str:
           and not (isinstance(n.stmt.value, ast.Constant) and n.stmt.value.value is None)]
     if st and g.always_preceded(N, st) is None:
         return "after state.session_id is set"
-    for a, pol in guard_atom_set(g, N):
+    # (a guard held in a boolean local -- `restore = s not in gone and s.session_id == ...; if restore:` -- counts like the test itself)
+    for a, pol in sorted(resolved_atom_set(g, fn, N)):
         if pol and (a == f"{var}._attached" or a.startswith(f"{var}.session_id ==") or a.startswith(f"{var}.session_id is ")):
             return f"guarded by `{a}`"
+        if not pol and a.startswith(f"{var}.session_id !="):
+            return f"guarded by `not ({a})`"
     return ""
 
 
